@@ -98,6 +98,9 @@ class SScn:
     cell0: str | None = None                        # what the user's object holds before construction
     ops: list = field(default_factory=list)         # ["send", ev] ["wv", key|None] ["ws", idx] ["raw", key|None] ["del"] ["read"]
     fixed: bool = True                              # which variant of the model the tree is expected to be
+    bundles: list = field(default_factory=list)     # [i, k]: ops i+1 .. i+k are performed *from inside* a callback of
+                                                    # the transition that `send` op i runs (one macrostep); only the
+                                                    # last of them may be a send (it is queued behind the running event)
 
     def distinct(self):
         return len(set(self.values)) == len(self.values)
@@ -290,6 +293,19 @@ def gen_scenario(rng: random.Random, name: str, n_ops=(3, 10)) -> SScn:
                 s.ops.append(["del"])
         else:
             s.ops.append(["read"])
+    # somebody writes the model field, and sends the next event, from inside a callback of a running transition
+    i = 0
+    while i < len(s.ops):
+        if s.ops[i][0] == "send" and rng.random() < 0.35:
+            k = 0
+            while i + k + 1 < len(s.ops) and k < 3:
+                k += 1
+                if s.ops[i + k][0] == "send":
+                    break
+            if k:
+                s.bundles.append([i, k])
+                i += k
+        i += 1
     # values outside the machine never collide (==) with a declared one (`others_ok`), so a token is
     # mapped iff the Python value is a key of states_map
     return s
